@@ -353,8 +353,8 @@ func wzSource(m mode, place string) string {
 // ---------------------------------------------------------------------------------------------
 // source generation: hand-written .wat
 //
-// The function named by (start …) is always the FIRST defined function: watutil's
-// buildStartSection resolves any start name to the first defined function (a wat2wasm defect
+// The function named by (start …) is always the FIRST defined function: before 072a4db watutil's
+// buildStartSection resolved any start name to the first defined function (a wat2wasm defect
 // outside this property), so the text is written such that this makes no difference.
 
 const watDone = "12345"
@@ -735,7 +735,7 @@ func main() {
 	r.Assume("exit function = syscall/js.ProcExit(code: i32) (waroot/src has no os.Exit); codes are taken modulo 256 by the OS, so k ranges over 0..255")
 	r.Assume("out-of-bounds memory access = a slice index that leaves linear memory (s[400000000]); a small out-of-range index does not trap in Wa and is not part of this property")
 	r.Assume("hand-written .wat has no init/defer/panic: init = (start) function and exported _start, deferred = reached through call_indirect; .wat/.wasm 'compile error' = text that does not assemble / does not validate, resp. garbage bytes / bad version field")
-	r.Assume("(start $f) is always given the first defined function, so watutil's start-index defect (always picks the first defined function) does not influence the outcome")
+	r.Assume("(start $f) always names the first defined function, so the outcome is the same with and without watutil's start-index defect (fixed in 072a4db: any start name resolved to the first defined function)")
 
 	var err error
 	workDir, err = os.MkdirTemp("", "c29-")
